@@ -97,7 +97,7 @@ PROPS = {
               "double-and-add; scale_by_cofactor multiplies by exactly h1 / h2. Closure of the subgroup under the group operations is group theory over "
               "the contracts of C01/C02; hash and map outputs: C14; successfully decoded / deserialized points pass the checked decoder, whose last test is this predicate "
               "(units codec and serdes, also run by this check).",
-        not_covered=["random(): rejection loop over an RNG", "generators: [r]G = O is established by the baseline tests g1_generator / g2_generator, not by the verifier",
+        not_covered=["random(): rejection loop over an RNG", "generators: [r]G = O is computed on the standard coordinates by the generator of unit consts with exact integer arithmetic (a closed-term check, not a Verus obligation); that get_generator returns those constants is read off the code",
                      "Fr MODULUS = r, B_COEFF = 4 and the G1 and G2 generator coordinates (standard values, on the curve) are checked as closed terms in unit consts"],
         assumptions=[A['A3'], A['A4'], "ff::BitIterator contract (MSB-first bits of the limb value): proved on the pinned registry source in unit ffdep (thorough tier)", A['D_FQ'], A['TOOLS']],
     ),
